@@ -79,6 +79,10 @@ func genParamOp(c *xplore.Ctx) OpCase {
 	if cont != "scalar" {
 		arrVal = c03ArrayVals[c.Choose(len(c03ArrayVals), "array-validation")]
 	}
+	innerVal := J(nil)
+	if cont == "nested" {
+		innerVal = c03ArrayVals[c.Choose(len(c03ArrayVals), "inner-array-validation")]
+	}
 	if loc == "path" {
 		if !required {
 			required = true // path parameters are always required: the default choice means "required"
@@ -114,7 +118,7 @@ func genParamOp(c *xplore.Ctx) OpCase {
 	case cont == "nested":
 		p["type"] = "array"
 		p["collectionFormat"] = "pipes"
-		p["items"] = J{"type": "array", "items": leaf}
+		p["items"] = merge(J{"type": "array", "items": leaf}, innerVal)
 	default:
 		p["type"] = "array"
 		p["items"] = leaf
@@ -130,8 +134,8 @@ func genParamOp(c *xplore.Ctx) OpCase {
 		if !ok || v == "" {
 			c.Skip()
 		}
-		if cont == "nested" && arrVal["uniqueItems"] == true {
-			c.Skip() // the nested default below repeats its inner array
+		if cont == "nested" && (arrVal["uniqueItems"] == true || innerVal != nil) {
+			c.Skip() // the nested default below repeats its inner array / has one-element inner arrays
 		}
 		switch cont {
 		case "scalar":
@@ -180,6 +184,9 @@ func genParamOp(c *xplore.Ctx) OpCase {
 	if arrVal != nil {
 		ak = "/" + strings.Join(sortedKeys(arrVal), "+")
 	}
+	if innerVal != nil {
+		ak += "/inner:" + strings.Join(sortedKeys(innerVal), "+")
+	}
 	return OpCase{Method: method, Path: path, Params: []J{p}, Cons: cons,
 		Desc:  fmt.Sprintf("%s %s %s [%s] val=%s%s", loc, ty.Name, cont, flags, vk, ak),
 		Class: fmt.Sprintf("%s | %s | %s | %s | %s%s", loc, ty.Name, cont, flags, vk, ak)}
@@ -209,6 +216,8 @@ func c03SpecialOps() []OpCase {
 		body("inline-integer", J{"type": "integer", "maximum": 5}, req)
 		body("inline-array", J{"type": "array", "items": J{"type": "integer", "minimum": 1}, "minItems": 1, "uniqueItems": true}, req)
 		body("inline-map", J{"type": "object", "additionalProperties": J{"type": "string", "maxLength": 2}}, req)
+		body("inline-array-of-arrays", J{"type": "array", "items": J{"type": "array", "minItems": 1, "maxItems": 2, "items": J{"type": "integer"}}}, req)
+		body("inline-map-of-arrays-of-arrays", J{"type": "object", "additionalProperties": J{"type": "array", "items": J{"type": "array", "minItems": 1, "uniqueItems": true, "items": J{"type": "string"}}}}, req)
 		body("inline-object", J{"type": "object", "required": A{"a"}, "properties": J{"a": J{"type": "string", "enum": A{"x", "y"}}, "n": J{"type": "object", "properties": J{"d": J{"type": "number", "minimum": 0.5}}}}}, req)
 	}
 	// two parameters
@@ -388,6 +397,10 @@ func paramRawCandidates(p J) [][]string {
 			// outer pipes, inner csv: each element list becomes one inner array; also two inner arrays
 			inner := strings.Join(l, ",")
 			out = append(out, []string{inner}, []string{inner + "|" + good})
+			if len(l) == 0 {
+				// an inner array made of separators only
+				out = append(out, []string{good + "|,"}, []string{","})
+			}
 			continue
 		}
 		if cf == "multi" {
@@ -609,8 +622,8 @@ func c03Evaluate(r *evid.Run, op OpCase, rr refbind.Request, res HTTPRes, defs J
 				// body values: compare after the C05 normaliser (zero-valued optional members may be dropped)
 				sch := bodySchema(op, pname)
 				rootJ := J{"definitions": defs}
-				w = nullArraysAbsent(rewriteDoc(sch, rootJ, w, rewriteOpts{dropUndeclared: true, dropZeroAll: true}))
-				g = nullArraysAbsent(rewriteDoc(sch, rootJ, g, rewriteOpts{dropUndeclared: true, dropZeroAll: true}))
+				w = nullArraysAbsent(rewriteDoc(sch, rootJ, w, rewriteOpts{dropUndeclared: true, dropZeroAll: true, nullAsEmpty: true}))
+				g = nullArraysAbsent(rewriteDoc(sch, rootJ, g, rewriteOpts{dropUndeclared: true, dropZeroAll: true, nullAsEmpty: true}))
 				if isZeroJSON(w) && isZeroJSON(g) {
 					continue
 				}
